@@ -459,7 +459,10 @@ def targeted_grammars():
     # optimizer `e{n,m}` is unrolled into sequences of options; `noopt`: derived once more without it (RepMinMax & co.)
     rep_inputs = ["ab", "aba", "abab", "ababa", "abababa", "abaa", "axbb", "axbxb", "axbxcxd", "axb", "ax", "axbx", "axbxc", "bxaxa", "axaxa", "axa",
                   "qxq", "qxxq", "qq", "qx", "qxx", "axyaxya", "axyaxa", "axaxyaxya", "axyaxyaa", "axyaxaxy", "axaxy", "bxb", "bxab", "axbya", "axbxya",
-                  "axbxcc", "axbxcxdd", "axbxb", "bxa", "axb", "axbxba", "axbxcxcb", "axbxab", "axbxcxcba", "axaxyaa", "axyaxyaa"]
+                  "axbxcc", "axbxcxdd", "axbxb", "bxa", "axb", "axbxba", "axbxcxcb", "axbxab", "axbxcxcba", "axaxyaa", "axyaxyaa",
+                  "aaxbb", "aaxb", "aaxbbxb", "aaxbbxbb", "aaxbbxbbxb", "aaxba", "abba", "abb", "abbb", "abbbb", "ab", "aba", "abab",
+                  "aabxb", "aabxbcxc", "aabxbcxca", "aabxbca", "aabxbb", "aabxba", "aqaxqa", "aqaxbxba", "aqbxaxaa", "aqbxaa", "aqaxbxbq", "aqbxbxaxaxaa",
+                  "aqaxba", "aaxbxb", "aaxbbx"]
     for suffix, ws in (("", ""), ("_w", 'WHITESPACE = _{ " " }\n')):
         add("s_represtore" + suffix, "\n".join([
             'r0 = { (PUSH("a") ~ "b"){1,3} ~ PEEK }',
@@ -472,7 +475,13 @@ def targeted_grammars():
             'r7 = { (PUSH(ANY) ~ "x")+ ~ POP }',
             'r8 = { ((PUSH("a") ~ "x"){1,2} ~ "y"){1,2} ~ PEEK_ALL }',
             'r9 = { (PUSH(ANY) ~ "x"){2,3} ~ POP ~ POP }',
-            'r10 = { PUSH("a") ~ (POP ~ "x" ~ PUSH("b")){,2} ~ PEEK }']) + "\n" + ws,
+            'r10 = { PUSH("a") ~ (POP ~ "x" ~ PUSH("b")){,2} ~ PEEK }',
+            # replace-top idiom: a matched iteration leaves the DEPTH of the stack unchanged and its content changed, then an
+            # iteration fails (the restore point must be the stack after the last matched iteration), then the stack is read
+            'r11 = { PUSH("a") ~ (DROP ~ PUSH("b")){0,3} ~ PEEK }',
+            'r12 = { PUSH(ANY) ~ (POP ~ PUSH(ANY) ~ "x"){1,3} ~ PEEK_ALL }',
+            'r13 = { PUSH("a") ~ PUSH("q") ~ (DROP ~ PUSH("a" | "b") ~ "x"){,4} ~ POP ~ POP }',
+            'r14 = @{ PUSH("a") ~ (POP ~ "x" ~ PUSH("b")){1,2} ~ PEEK }']) + "\n" + ws,
             inputs=sorted(set(rep_inputs + ([x.replace("x", " x") for x in rep_inputs] + [x.replace("x", "x ") for x in rep_inputs] if ws else []))),
             alpha=["a", "b", "x", "q"] + ([" "] if ws else ["y"]), noopt=True)
 
@@ -532,6 +541,24 @@ def targeted_grammars():
         'a = { "x" }', 'b = { "y" }', 'main = { a ~ b ~ "!" }', 'sil = _{ a ~ b ~ "!" }',
         'neg = { !(a ~ b ~ "!") ~ a ~ b ~ "?" ~ "!" }', 'opt = { a ~ (b ~ "!")? ~ "." }', 'two = { main ~ main }']) + "\n",
         subinputs=["<<xy?>>", "ab\nxy?", "éxy!xy?", "x\r\nxy?!", "<xy!xy!>", "zxy!.x.y"], alpha=["x", "y", "!", "?"])
+
+    # -- shapes of four further seeded changes: a non-atomic rule whose whole body is a reference to an @ / $ rule (trailing skip
+    # of the full entry points), a sequence whose FIRST item consumes nothing (SOI / lookahead / empty string) before a skip,
+    # PEEK[a..b] with equal / decreasing bounds of one sign at small depths (empty slice in range, out of range, inverted),
+    # POP_ALL / PEEK_ALL of a pushed span whose text continues beyond the end of a Span sub-input
+    add("s_shapes", "\n".join([
+        'num = @{ ASCII_DIGIT+ }', 'cnum = ${ ASCII_DIGIT+ }', 'value = { num }', 'cvalue = { cnum }', 'svalue = _{ num }', 'nvalue = !{ num }',
+        'vvalue = { value }', 'lst = { value ~ ("," ~ value)* }', 'top = { SOI ~ value ~ EOI }', 'top2 = { SOI ~ "x" ~ EOI }',
+        'top3 = { &"x" ~ "x" ~ "4"? }', 'top4 = { "" ~ "x" ~ !"x" ~ "4" }', 'top5 = ${ SOI ~ "x" ~ EOI }',
+        'p0 = { PUSH("a") ~ PEEK[2..2] }', 'p1 = { PUSH("a") ~ PEEK[1..0] ~ "b"? }', 'p2 = { PUSH("a") ~ PUSH("b") ~ PEEK[1..1] ~ "x" }',
+        'p3 = { PUSH("a") ~ PEEK[-1..-1] ~ "a" }', 'p4 = { PUSH("a") ~ PUSH("b") ~ PEEK[-1..-2] }', 'p5 = { PUSH("a") ~ PUSH("b") ~ PEEK[3..1] }',
+        'p6 = { PEEK[0..0] ~ "a" }', 'p7 = { PUSH("a") ~ PUSH("b") ~ PEEK[2..2] ~ "a" }', 'p8 = { PUSH("a") ~ PUSH("b") ~ PEEK[-3..-3] }',
+        'p9 = { PUSH("a") ~ (PEEK[1..1] | PEEK[2..2] | PEEK[-2..-2]) ~ "b" }', 'p10 = @{ PUSH("a") ~ PEEK[1..1] ~ PEEK[0..0] ~ PEEK[-1..-1] ~ PEEK[0..1] }',
+        'pa = ${ PUSH("ab") ~ "-" ~ POP_ALL }', 'pb = { PUSH("ab") ~ PUSH("x") ~ "-" ~ PEEK_ALL ~ "4"? }',
+        'WHITESPACE = _{ " " }']) + "\n",
+        inputs=["42 ", "42", " 42", "4 2", "42 ,7", "42, 7 ", "42 , 7", "4,4 ", "4  ", " x", "x ", " x ", "x", "x4", "x 4", " x4", "a", "ab", "aa", "abx", "ab x",
+                "aba", "a a", "abab", "ab a", "ab-ab", "ab-a", "ab -ab", "abx-xab", "abx-xab4", "ab x - x ab 4", "abx-xa", "a b"],
+        subinputs=["ab-ab", "xab-abab", "abx-xab4", "42 ,7 x"], alpha=["4", " ", "a", "b", "x"], exh=3)
 
     # -- C08: sub-inputs of long strings: every cut of strings of 10-16 characters (a CR|LF pair split by the end, the
     # terminator of a skip_until just beyond the end, literals straddling the end, multi-byte characters next to both cuts)
